@@ -24,6 +24,7 @@ By convention, the folder "web" in the get_store() holds web interface and can b
 /liquer/web url. 
 
 """
+import os
 from os import makedirs, name, remove
 from pathlib import Path
 import json
@@ -478,9 +479,19 @@ class FileStore(Store):
                     raise KeyNotFoundStoreException(key=key, store=self)
         return self.finalize_metadata(metadata, key=key, is_dir=False)
 
+    def _write_atomically(self, path, b):
+        "Write to a temporary file (hidden in the metadata folder) and rename it"
+        d = path.parent if path.parent.name == self.METADATA else path.parent / self.METADATA
+        d.mkdir(parents=True, exist_ok=True)
+        tmp = d / f"{path.name}.tmp{os.getpid()}"
+        tmp.write_bytes(b)
+        tmp.replace(path)
+
     def store(self, key, data, metadata):
         self.path_for_key(key).parent.mkdir(parents=True, exist_ok=True)
-        self.path_for_key(key).write_bytes(data)
+        # metadata describing the previous content must not outlive it
+        self.metadata_path_for_key(key).unlink(missing_ok=True)
+        self._write_atomically(self.path_for_key(key), data)
         self.store_metadata(
             key, self.finalize_metadata(metadata, key=key, is_dir=False, data=data)
         )
@@ -492,8 +503,9 @@ class FileStore(Store):
         metadata = self.finalize_metadata(
             metadata, key=key, is_dir=self.is_dir(key), update=True
         )
-        with open(self.metadata_path_for_key(key), "w") as f:
-            json.dump(metadata, f)
+        self._write_atomically(
+            self.metadata_path_for_key(key), json.dumps(metadata).encode("utf-8")
+        )
         self.on_metadata_changed(key)
 
     def remove(self, key):
